@@ -3,7 +3,7 @@
    transcription of TagAttrDict, the attribute part of Tag.__init__, HTML.__add__ /
    __radd__ and consolidate_attrs); specification: Spec/AttrsSpec.v. *)
 From HT Require Import Model.Str Model.Tree Model.Escape Model.Attrs Spec.CharMap
-     Spec.AttrsSpec Proofs.AttrsProofs.
+     Spec.AttrsSpec Proofs.AttrsProofs Proofs.AttrsEmit.
 
 (* ---- names ------------------------------------------------------------------------- *)
 (* _normalize_attr_name removes exactly one trailing underscore and then turns every
@@ -108,13 +108,20 @@ Theorem C15_merge_plain :
 Proof. exact merged_plain. Qed.
 Print Assumptions C15_merge_plain.
 
-(* in general the merge is Python's (old + space) + val, left to right, with the + of str
-   and HTML (HTML.__add__ / __radd__, which escape the plain operand with the text table) *)
+(* in general the merge is the code's step, left to right: when either operand is HTML the
+   plain one is first turned into HTML(html_escape(x, attr=True)), then (old + space) + val
+   with the + of str and HTML (HTML.__add__ / __radd__) *)
 Theorem C15_merge_left_to_right :
-  forall (v : aval) (vs : list aval),
-    merged (v :: vs) = fold_left (fun acc x => py_add (py_add acc space) x) vs v.
+  forall (v : aval) (vs : list aval), merged (v :: vs) = fold_left merge_vals vs v.
 Proof. exact merged_fold. Qed.
 Print Assumptions C15_merge_left_to_right.
+
+(* what is written between the quotes is preserved by merging: every plain value escaped
+   exactly once with the attribute table, HTML values never, any mixture, order and count *)
+Theorem C15_merge_emit :
+  forall vs : list aval, emit_aval (merged vs) = join [32] (map emit_aval vs).
+Proof. exact merged_emit. Qed.
+Print Assumptions C15_merge_emit.
 
 (* a call raises (TypeError) exactly when one of its values has an unsupported type *)
 Theorem C15_call_error :
@@ -238,14 +245,16 @@ Example C15_call_example :
            ([120], AStr []); ([99;108;97;115;115;45], AStr [98])].
 Proof. vm_compute. split; reflexivity. Qed.
 
-(* the mixed merge follows the code: Tag(div, {class: a DQUOTE b}, class_=HTML(x))
-   stores HTML(a DQUOTE b SPACE x): the plain operand went through the TEXT table, which leaves the double
-   quote alone (34).  Rendering that value is the subject of C03. *)
+(* the mixed merge: Tag(div, {class: a DQUOTE b}, class_=HTML(x)) stores
+   HTML(a &quot; b SPACE x): the plain operand went through the ATTRIBUTE table (34 becomes
+   &quot;, 10 becomes &#10;) before it was joined with the HTML one. *)
 Example C15_mixed_merge_example :
   attrs_new [[([99;108;97;115;115], VStr [97;34;98])]] [([99;108;97;115;115;95], VHtml [120])]
-  = Ok [([99;108;97;115;115], AHtml [97;34;98;32;120])]
-  /\ merged [AStr [60]; AHtml [60]; AStr [38]] = AHtml [38;108;116;59; 32; 60; 32; 38;97;109;112;59].
-Proof. vm_compute. split; reflexivity. Qed.
+  = Ok [([99;108;97;115;115], AHtml [97; 38;113;117;111;116;59; 98;32;120])]
+  /\ merged [AStr [34]; AHtml [60]; AStr [10]]
+     = AHtml [38;113;117;111;116;59; 32; 60; 32; 38;35;49;48;59]
+  /\ emit_aval (merged [AStr [34]; AStr [60]]) = [38;113;117;111;116;59; 32; 38;108;116;59].
+Proof. vm_compute. repeat split; reflexivity. Qed.
 
 (* update replaces and keeps the position, appends new names, is atomic on TypeError *)
 Example C15_replace_example :
